@@ -916,7 +916,26 @@ def r07_22(run, model):
                 continue
             n += 1
             par = S.Parents(arm["body"])
-            cond = [c for c in calls if any(a["k"] in ("If", "Match") for a in par.ancestors(c))]
+            def skippable(c):
+                # a call under a test is unconditional for our purpose when every way around it ends in the failure result
+                for a in par.ancestors(c):
+                    if a["k"] == "If":
+                        inthen = S.span_contains(a["then"]["sp"], c["sp"])
+                        other = a.get("else") if inthen else a["then"]
+                        t = S.norm_ws(run.facts.text(MONO, other["sp"])) if other is not None else ""
+                        if S.span_contains(a["cond"]["sp"], c["sp"]):
+                            continue
+                        if other is None or "Err(" not in t or "Ok(" in t:
+                            return True
+                    elif a["k"] == "Match":
+                        for arm2 in a["arms"]:
+                            if S.span_contains(arm2["sp"], c["sp"]):
+                                continue
+                            t = S.norm_ws(run.facts.text(MONO, arm2["body"]["sp"]))
+                            if "Err(" not in t or "Ok(" in t:
+                                return True
+                return False
+            cond = [c for c in calls if skippable(c)]
             used = S.idents(arm["body"])
             unused = [b for b in binds if b not in used]
             pt = S.norm_ws(run.facts.text(MONO, arm["pat"]["sp"]))
